@@ -403,6 +403,17 @@ fn shape_fragments() -> Vec<(&'static str, &'static str)> {
         ("func-select-t", "(func (result funcref) (select (result funcref) (ref.null func) (ref.func $f) (i32.const 1)))"),
         ("func-f32-nan-const", "(func (drop (f32.const nan:0x1)) (drop (f64.const nan:0x8000000000001)))"),
         ("func-sat-signext", "(func (drop (i32.trunc_sat_f32_s (f32.const 1))) (drop (i64.extend32_s (i64.const 1))))"),
+        // typed operands over memories / tables of mixed index type: an index that ends up on the wrong
+        // memory or table changes the operand types the validator demands (seeded mutant C01/b)
+        ("mm-copy-mixed", "(memory $m64 i64 1) (func (memory.copy $m64 $m (i64.const 0) (i32.const 0) (i32.const 0)) (memory.copy $m $m64 (i32.const 0) (i64.const 0) (i32.const 0)) (memory.copy $m64 $m64 (i64.const 0) (i64.const 0) (i64.const 0)))"),
+        ("mm-load-store-mixed", "(memory $m64 i64 1) (func (i64.store $m64 offset=4294967296 (i64.const 0) (i64.load $m64 (i64.const 8))) (i32.store $m (i32.const 0) (i32.load $m offset=8 (i32.const 8))) (i32.store8 $m64 (i64.const 1) (i32.load16_u $m (i32.const 2))))"),
+        ("mm-size-grow-mixed", "(memory $m64 i64 1) (func (drop (memory.grow $m64 (i64.const 0))) (drop (i64.eqz (memory.size $m64))) (drop (memory.grow $m (i32.const 0))) (drop (i32.eqz (memory.size $m))))"),
+        ("mm-init-fill-mixed", "(memory $m64 i64 1) (data $pd \"abcd\") (func (memory.init $m64 $pd (i64.const 0) (i32.const 0) (i32.const 2)) (memory.init $m $pd (i32.const 0) (i32.const 0) (i32.const 2)) (memory.fill $m64 (i64.const 0) (i32.const 1) (i64.const 2)) (memory.fill $m (i32.const 0) (i32.const 1) (i32.const 2)))"),
+        ("mm-atomic-simd-mixed", "(memory $m64 i64 1) (func (drop (i32.atomic.rmw.add $m64 (i64.const 0) (i32.const 1))) (drop (i64.atomic.load $m64 (i64.const 8))) (drop (i32.atomic.rmw.cmpxchg $m (i32.const 0) (i32.const 1) (i32.const 2))) (drop (v128.load $m64 (i64.const 0))) (v128.store64_lane $m 1 (i32.const 0) (v128.const i64x2 1 2)) (drop (v128.load8_lane $m64 3 (i64.const 0) (v128.const i64x2 1 2))))"),
+        ("mm-data-active-mixed", "(memory $m64 i64 1) (data (memory $m64) (i64.const 3) \"64\") (data (memory $m) (i32.const 3) \"32\")"),
+        ("t64-copy-mixed", "(table $t64 i64 2 funcref) (func (table.copy $t64 $t (i64.const 0) (i32.const 0) (i32.const 0)) (table.copy $t $t64 (i32.const 0) (i64.const 0) (i32.const 0)))"),
+        ("t64-ops-mixed", "(table $t64 i64 2 funcref) (elem $pe func $f) (func (table.set $t64 (i64.const 0) (table.get $t (i32.const 0))) (drop (table.grow $t64 (ref.null func) (i64.const 0))) (drop (i64.eqz (table.size $t64))) (table.fill $t64 (i64.const 0) (ref.null func) (i64.const 0)) (table.init $t64 $pe (i64.const 0) (i32.const 0) (i32.const 1)) (table.init $t $pe (i32.const 0) (i32.const 0) (i32.const 1)) (call_indirect $t64 (type $v) (i64.const 0)))"),
+        ("t64-elem-active-mixed", "(table $t64 i64 2 funcref) (elem (table $t64) (i64.const 0) func $f) (elem (table $t) (i32.const 0) func $f)"),
         ("names-func-local", "(func $named (param $p i32) (local $l i64) (block $lbl))"),
         ("names-module", "(@name \"modname\")"),
         ("custom-a", "(@custom \"a\" \"payload\")"),
@@ -414,13 +425,98 @@ fn shape_fragments() -> Vec<(&'static str, &'static str)> {
     ]
 }
 
-const SHAPE_BASE: &str = "(type $v (func)) (import \"e\" \"fi\" (func $fi (type $v))) (import \"e\" \"gi\" (global $gi i32)) (func $f (type $v)) (table $t 4 funcref) (memory $m 1) (global $g (mut i32) (i32.const 0)) (elem declare func $f $fi)";
+const SHAPE_BASE_HEAD: &str = "(type $v (func)) (import \"e\" \"fi\" (func $fi (type $v))) (import \"e\" \"gi\" (global $gi i32))";
+const SHAPE_BASE_TAIL: &str = "(func $f (type $v)) (table $t 4 funcref) (memory $m 1) (global $g (mut i32) (i32.const 0)) (elem declare func $f $fi)";
 
-fn shape_family(k: usize) -> Vec<Case> {
-    let frags = shape_fragments();
+/// Identifiers a fragment defines itself get a per-fragment suffix, so that two fragments that use
+/// the same private name (`$m64`, `$pd`, ...) can be combined in one module.
+fn uniquify(frag: &str, suffix: usize) -> String {
+    const BASE_IDS: &[&str] = &["$v", "$fi", "$gi", "$f", "$t", "$m", "$g", "$shape"];
+    let mut out = String::new();
+    let b = frag.as_bytes();
+    let mut i = 0;
+    let mut in_str = false;
+    while i < b.len() {
+        let c = b[i] as char;
+        if c == '"' && (i == 0 || b[i - 1] != b'\\') {
+            in_str = !in_str;
+        }
+        if c == '$' && !in_str {
+            let mut j = i + 1;
+            while j < b.len() && !(b[j] as char).is_whitespace() && b[j] != b')' && b[j] != b'(' {
+                j += 1;
+            }
+            let id = &frag[i..j];
+            out.push_str(id);
+            if !BASE_IDS.contains(&id) {
+                out.push_str(&format!("_{}", suffix));
+            }
+            i = j;
+        } else {
+            out.push(c);
+            i += 1;
+        }
+    }
+    out
+}
+
+/// Splits a fragment into its top-level parenthesised fields.
+fn split_fields(body: &str) -> Vec<String> {
+    let mut out = vec![];
+    let mut depth = 0i32;
+    let mut cur = String::new();
+    let mut in_str = false;
+    let mut prev = ' ';
+    for c in body.chars() {
+        if c == '"' && prev != '\\' {
+            in_str = !in_str;
+        }
+        if !in_str {
+            if c == '(' {
+                depth += 1;
+            }
+            if c == ')' {
+                depth -= 1;
+            }
+        }
+        if depth > 0 || c == ')' {
+            cur.push(c);
+        }
+        if depth == 0 && c == ')' && !in_str {
+            out.push(std::mem::take(&mut cur));
+        }
+        prev = c;
+    }
+    out
+}
+
+fn shape_family(k: usize) -> (Vec<Case>, Vec<String>) {
+    let mut unparsable: Vec<String> = vec![];
+    let frags_raw = shape_fragments();
+    let frags: Vec<(&str, String)> = frags_raw.iter().enumerate().map(|(i, (n, t))| (*n, uniquify(t, i))).collect();
     let mut cases = vec![];
     let mut push = |names: Vec<&str>, body: String| {
-        let text = format!("(module $shape {} {})", SHAPE_BASE, body);
+        // the text format wants imports before definitions and the module-name annotation first: split
+        // the fragments accordingly (a fragment is a sequence of top-level fields)
+        let mut head = String::new();
+        let mut imports = String::new();
+        let mut rest = String::new();
+        for field in split_fields(&body) {
+            if field.starts_with("(@name") {
+                head.push_str(&field);
+            } else if field.starts_with("(import") {
+                imports.push_str(&field);
+                imports.push(' ');
+            } else {
+                rest.push_str(&field);
+                rest.push(' ');
+            }
+        }
+        let text = if head.is_empty() {
+            format!("(module $shape {} {} {} {})", SHAPE_BASE_HEAD, imports, SHAPE_BASE_TAIL, rest)
+        } else {
+            format!("(module {} {} {} {} {})", head, SHAPE_BASE_HEAD, imports, SHAPE_BASE_TAIL, rest)
+        };
         match wat::parse_str(&text) {
             Ok(bytes) => {
                 let multi = bytes_have_multi_memory(&bytes);
@@ -432,17 +528,26 @@ fn shape_family(k: usize) -> Vec<Case> {
                     both_flags: !multi,
                 })
             }
-            Err(_) => {}
+            Err(e) => unparsable.push(format!("{:?}: {}", names, e.to_string().lines().next().unwrap_or(""))),
         }
     };
     push(vec![], String::new());
     for i in 0..frags.len() {
-        push(vec![frags[i].0], frags[i].1.to_string());
+        push(vec![frags[i].0], frags[i].1.clone());
     }
     if k >= 2 {
         for i in 0..frags.len() {
             for j in (i + 1)..frags.len() {
                 push(vec![frags[i].0, frags[j].0], format!("{} {}", frags[i].1, frags[j].1));
+            }
+        }
+    }
+    if k >= 3 {
+        for i in 0..frags.len() {
+            for j in (i + 1)..frags.len() {
+                for l in (j + 1)..frags.len() {
+                    push(vec![frags[i].0, frags[j].0, frags[l].0], format!("{} {} {}", frags[i].1, frags[j].1, frags[l].1));
+                }
             }
         }
     }
@@ -452,7 +557,7 @@ fn shape_family(k: usize) -> Vec<Case> {
             cases.push(Case { desc: format!("shape {}", n), class: format!("shape:{}", n), bytes_hex: hex(&bytes), multi_memory: false, both_flags: true });
         }
     }
-    cases
+    (cases, unparsable)
 }
 
 fn bytes_have_multi_memory(bytes: &[u8]) -> bool {
@@ -583,7 +688,7 @@ fn run_case_for(which: &'static str) -> impl Fn(&Case) -> Outcome + Sync {
 
 pub fn check(which: &'static str, tier: Tier) -> i32 {
     let mut run = Run::new(which, tier, "exploration");
-    let k = tier.pick(1, 2);
+    let k = tier.pick(2, 3);
     let cap = tier.pick(8, 24);
     run.rule = format!(
         "families enumerated completely: (i) every in-scope operator of wasmparser 0.235 (for_each_operator!) x cartesian product of per-field immediate domains (cap {} instances/operator) in a scaffold module, under memory configs default/shared/memory64 for memory operators; (ii) every value type (5 numeric + 15 heap types x nullable/non-null) x syntactic positions; (iii) base module + every subset of <= {} section-shape fragments (of {}); (iv) single-memory inputs encoded under both multi-memory flag values; (v) thorough: repository corpus (.wat/.wasm and modules inside .wast). Inputs failing wasmparser validation are excluded and counted. Non-trivial class = (operator,config) | (type,position) | fragment set | corpus file.",
@@ -606,7 +711,9 @@ pub fn check(which: &'static str, tier: Tier) -> i32 {
     run.run_cases("operator sweep", &ops, &f);
     let types = type_family();
     run.run_cases("type x position", &types, &f);
-    let shapes = shape_family(k);
+    let (shapes, unparsable) = shape_family(k);
+    run.extra.insert("shape_combinations_not_expressible_as_one_module".into(), serde_json::json!(unparsable.len()));
+    run.extra.insert("shape_combinations_not_expressible_samples".into(), serde_json::json!(unparsable.iter().take(5).collect::<Vec<_>>()));
     run.run_cases("section shapes", &shapes, &f);
     if tier == Tier::Thorough {
         let corpus = corpus_family();
